@@ -195,9 +195,12 @@ def b64Encode (a : Alphabet) (pad : Bool) : Bytes → List Char
 /-- `general_purpose::STANDARD.decode` -/
 def decodeStd (s : List Char) : Option Bytes := b64Decode .standard .requireCanonical false s
 
+def dotToPlus (c : Char) : Char := if c = '.' then '+' else c
+def plusToDot (c : Char) : Char := if c = '+' then '.' else c
+
 /-- the `ab64_to_b64!` macro -/
 def ab64ToB64 (s : List Char) : List Char :=
-  let s := s.map (fun c => if c = '.' then '+' else c)
+  let s := s.map dotToPlus
   match s.length % 4 with
   | 2 => s ++ ['=', '=']
   | 3 => s ++ ['=']
@@ -208,7 +211,7 @@ def decodeAb64 (s : List Char) : Option Bytes := b64Decode .standard .requireCan
 
 /-- passlib's adapted base64 writer -/
 def ab64Encode (b : Bytes) : List Char :=
-  (b64Encode .standard false b).map (fun c => if c = '+' then '.' else c)
+  (b64Encode .standard false b).map plusToDot
 
 /-! ## hex (`hex::decode`) -/
 
@@ -422,29 +425,31 @@ def parseArgon (hv : List Char) : Except PwErr Kdf :=
           | _, _ => .error .ParsingFailed
         | _, _, _ => .error .ParsingFailed
 
+/-- the `match hash_format.as_str()` of the `{tag}value` branch (tag already lower-cased) -/
+def parseTagged (tag hv : List Char) : Except PwErr Kdf :=
+  match lookup tag tagTable with
+  | none => .error .NoDecoderFound
+  | some .pbkdf2 => parsePbkdf2 tag hv
+  | some .invalidFormat => .error .InvalidFormat
+  | some .argon => parseArgon hv
+  | some .crypt => parseCrypt hv
+  | some (.ds n k) =>
+    match decodeStd hv with
+    | none => .error .Base64Decoding
+    | some h => if h.length ≠ n then .error .InvalidSaltLength else .ok { tag := k, hash := h }
+  | some (.dss n strict k) =>
+    match decodeStd hv with
+    | none => .error .Base64Decoding
+    | some sh =>
+      if strict && sh.length ≤ n then .error .InvalidSaltLength
+      else if sh.length < n then .error .InvalidLength
+      else .ok { tag := k, salt := sh.drop n, hash := sh.take n }
+
 /-- the `{tag}value` branch of `TryFrom<&str>` -/
 def parseBraced (value : List Char) : Except PwErr Kdf :=
   match splitOnce '}' value with
   | none => .error .InvalidFormat
-  | some (fmt, hv) =>
-    let tag := lower ((stripPrefix ['{'] fmt).getD fmt)
-    match lookup tag tagTable with
-    | none => .error .NoDecoderFound
-    | some .pbkdf2 => parsePbkdf2 tag hv
-    | some .invalidFormat => .error .InvalidFormat
-    | some .argon => parseArgon hv
-    | some .crypt => parseCrypt hv
-    | some (.ds n k) =>
-      match decodeStd hv with
-      | none => .error .Base64Decoding
-      | some h => if h.length ≠ n then .error .InvalidSaltLength else .ok { tag := k, hash := h }
-    | some (.dss n strict k) =>
-      match decodeStd hv with
-      | none => .error .Base64Decoding
-      | some sh =>
-        if strict && sh.length ≤ n then .error .InvalidSaltLength
-        else if sh.length < n then .error .InvalidLength
-        else .ok { tag := k, salt := sh.drop n, hash := sh.take n }
+  | some (fmt, hv) => parseTagged (lower ((stripPrefix ['{'] fmt).getD fmt)) hv
 
 /-- first matching entry of the leading `if` chain -/
 def firstPrefix : List (List Char × Bool × TopParser) → List Char → Option (TopParser × List Char)
@@ -505,7 +510,10 @@ def natDigitsAux : Nat → Nat → List Char → List Char
 /-- decimal rendering -/
 def natDigits (n : Nat) : List Char := natDigitsAux (n + 1) n []
 
-def dollar (fields : List (List Char)) : List Char := ['$'].intercalate fields
+def dollar : List (List Char) → List Char
+  | [] => []
+  | [a] => a
+  | a :: rest => a ++ '$' :: dollar rest
 
 def renderDjango (cost : Nat) (salt : List Char) (hash : Bytes) : List Char :=
   dollar [['p','b','k','d','f','2','_','s','h','a','2','5','6'], natDigits cost, salt, b64Encode .standard true hash]
